@@ -158,3 +158,28 @@ MUTANTS["C13"] = [
     M("isa_table_row_missing", HW, '            "tsv110": "aarch64",\n', "", "R5"),
     M("supported_without_file", CLI, '    "V2",\n]', '    "V2",\n    "V3",\n]', "R5"),
 ]
+
+_TOLERANT = ('        try:\n            with cachefile.open("rb") as f:\n                data = pickle.load(f)\n        except Exception:\n            # an interrupted or concurrent write may leave an incomplete file: rebuild instead\n            return None\n',
+             '        with cachefile.open("rb") as f:\n            data = pickle.load(f)\n')
+_ATOMIC = ('        tmpfile = cachefile.with_name("{}.{}.tmp.pickle".format(cachefile.stem, os.getpid()))\n        try:\n            with tmpfile.open("wb") as f:\n                pickle.dump(self._data, f)\n            os.replace(str(tmpfile), str(cachefile))\n        finally:\n            if tmpfile.exists():\n                tmpfile.unlink()\n',
+           '        with cachefile.open("wb") as f:\n            pickle.dump(self._data, f)\n')
+
+MUTANTS["C17"] = [
+    M("revert_fix_in_place_and_unguarded", HW, [_TOLERANT[0], _ATOMIC[0]], [_TOLERANT[1], _ATOMIC[1]], "R6", "revert of the fix"),
+    M("tolerant_read_only", HW, _ATOMIC[0], _ATOMIC[1], "SILENT", "tolerant read alone satisfies the rule"),
+    M("atomic_publish_only", HW, _TOLERANT[0], _TOLERANT[1], "SILENT", "atomic publish alone satisfies the rule"),
+    M("tmp_name_not_unique", HW, [_TOLERANT[0], 'cachefile.with_name("{}.{}.tmp.pickle".format(cachefile.stem, os.getpid()))'],
+      [_TOLERANT[1], 'cachefile.with_name("{}.tmp.pickle".format(cachefile.stem))'], "R6"),
+    M("handler_reraises", HW, [_ATOMIC[0], "            # an interrupted or concurrent write may leave an incomplete file: rebuild instead\n            return None\n"],
+      [_ATOMIC[1], "            raise\n"], "R6"),
+    M("reader_key_by_name", HW, '        p = Path(filepath)\n        hexhash = hashlib.sha256(p.read_bytes()).hexdigest()\n\n        # 1. companion',
+      '        p = Path(filepath)\n        hexhash = hashlib.sha256(p.name.encode()).hexdigest()\n\n        # 1. companion', "R1"),
+    M("writer_other_home_name", HW, 'home_cachefile = (cache_dir / (p.stem + "_" + hexhash)).with_suffix(".pickle")', 'home_cachefile = (cache_dir / (p.stem + "-" + hexhash)).with_suffix(".pickle")', "R1"),
+    M("version_test_dropped", HW, '            data = self._load_cachefile(home_cachefile)\n            if data is not None and data.get("internal_version") == self.INTERNAL_VERSION:', '            data = self._load_cachefile(home_cachefile)\n            if data is not None:', "R2"),
+    M("stamp_after_write", HW, ['                self._data["internal_version"] = self.INTERNAL_VERSION\n', "                    self._write_in_cache(self._path)\n"],
+      ["", '                    self._write_in_cache(self._path)\n                self._data["internal_version"] = self.INTERNAL_VERSION\n'], "R2"),
+    M("store_after_publish", HW, "                    self._write_in_cache(self._path)\n", '                    self._write_in_cache(self._path)\n                self._data["loaded_from"] = self._path\n', "R3"),
+    M("lazy_reads_cache", HW, "cached = self._get_cached(self._path) if not lazy else False", "cached = self._get_cached(self._path)", "R4"),
+    M("lazy_fills_runtime_cache", HW, "            # Store in runtime cache\n            if not lazy:\n                MachineModel._runtime_cache[self._path] = self._data", "            # Store in runtime cache\n            MachineModel._runtime_cache[self._path] = self._data", "R4"),
+    M("runtime_cache_served", HW, "                self._data = MachineModel._runtime_cache[self._path]\n", "                self._data = MachineModel._runtime_cache[self._path]\n                return\n", "R5"),
+]
